@@ -5,6 +5,7 @@
    Each rule is a direct transcription of a sentence of a listed property:
      P1 P2 P3      (C01)  delivered bytes are a prefix of what the peer wrote; Finished only after everything
      R2 R3 R6      (C04)  delivered/acknowledged only what was acceptable on arrival inside the advertised window
+                   (R6, window field x negotiated shift within the buffer, is also judged for C05)
      S1..S6        (C05)  sender inside learned window / MSS+MTU / content / contiguity / FIN placement / SYN window
      T1 T2 T3      (C17)  state-diagram edges with their prescribed causes; TIME-WAIT 10 s; only in-window RST
      L1 L2 L3      (C02)  unacknowledged data/SYN/FIN => finite deadline; quiescence only when done; no livelock
